@@ -733,9 +733,9 @@ func (f *vfsFS) Sub(dir string) (fs.FS, error) { return nil, absfs.ErrNotImpleme
 
 // ---------------------------------------------------------------- FileSystem
 
-func (f *vfsFS) Chdir(dir string) error         { return nil }
-func (f *vfsFS) Getwd() (string, error)         { return "/", nil }
-func (f *vfsFS) TempDir() string                { return "/tmp" }
+func (f *vfsFS) Chdir(dir string) error               { return nil }
+func (f *vfsFS) Getwd() (string, error)               { return "/", nil }
+func (f *vfsFS) TempDir() string                      { return "/tmp" }
 func (f *vfsFS) Open(name string) (absfs.File, error) { return f.OpenFile(name, os.O_RDONLY, 0) }
 func (f *vfsFS) Create(name string) (absfs.File, error) {
 	return f.OpenFile(name, os.O_RDWR|os.O_CREATE|os.O_TRUNC, 0666)
